@@ -268,8 +268,8 @@ PROPS.update({
                "'am I last?' decision and the release, and inside upgrade."),
         technique="Lean 4 proof (invariants over call sequences and over all interleavings; kernel-checked counterexample for the pre-repair protocol) + forced-schedule correspondence",
         design_ref="DESIGN.md §6 C03"),
-    "C16": dict(obs_prop(["EyeballVerif.Props.C16"],
-        "c16_free_acquires / c16_write_same_as_sync: with the lock free every call completes on its first poll with exactly the default flavour's effect; c16_release_wakes_head / c16_release_partial: "
+    "C16": dict(obs_prop(["EyeballVerif.Props.C16", "EyeballVerif.Props.C16Run"],
+        "c16_guard_free_run (Props/C16Run): for EVERY history of calls each awaited to completion (writes of every kind through any owner, subscriber polls, next_now), the async flavour never waits, returns the default flavour's results call by call (values, previous values, who is woken, Ready / Pending / end) and ends in the default flavour's state with the lock free — induction over the history from gcall_async_eq_sync; c16_free_acquires / c16_write_same_as_sync: with the lock free every call completes on its first poll with exactly the default flavour's effect; c16_release_wakes_head / c16_release_partial: "
         "who is woken by a release (FIFO); c16_acquire_fair / c16_release_fair: nobody overtakes a waiter; c16_granted_sub_polls_like_sync: a subscriber that got the lock answers what the default flavour answers",
         [{"name": "obsasync"}], extra_tb=["tokio::sync::RwLock modelled as a FIFO permit semaphore (read = 1 permit, write = all permits; released permits go to queued waiters first, a waiter is woken when it has all its permits), read from tokio 1.53.1"]),
         claim=("Lean 4: the async-lock flavour is run against the same operation-level model as the default flavour, so the theorems of C01-C03 (oinv_run, c01_poll_spec, c02_*, c03_*) are the statement of its "
